@@ -175,3 +175,9 @@ package xrep
 //@   ensures result.Self == 49 && result.Peer == 48 && result.SelfName == "rep" && result.PeerName == "req"
 //@
 // ---- end generated Info contracts ----
+
+// ---- RemovePipe: the pipe leaves the map and its close channel is closed (round 7b) ----
+//@ func (*socket).RemovePipe
+//@   before call:delete#1 assert arg0 == s.pipes && held(s.Mutex)
+//@   before call:close#1 assert arg0 == p.closeQ
+//@   ensures called("delete")
